@@ -45,10 +45,12 @@ def cs_expected(shadow, arrays, which, g):
     return out
 
 
-def compare(g, e, rtol=2e-9):
+def compare(g, e, rtol=2e-9, rel=False):
     g = np.asarray(g, dtype=np.float64)
     if g.shape != e.shape:
         return False
+    if rel:  # purely relative (cases whose gradients are tiny but not zero)
+        return bool(np.all(np.abs(g - e) <= 1e-7 * np.abs(e)))
     return bool(np.all(np.abs(g - e) <= rtol * np.maximum(1.0, np.abs(e))))
 
 
@@ -131,7 +133,7 @@ def check_op(case):
             return ("grad_type", "operand %d: .grad is a %s, not an ndarray" % (i, type(got).__name__))
         if got.shape != a.shape or got.dtype != a.dtype:
             return ("grad_shape_dtype", "operand %d: grad %s %s for tensor %s %s" % (i, got.shape, got.dtype, a.shape, a.dtype))
-        if not compare(got, exp, rtol):
+        if not compare(got, exp, rtol, rel=bool(case.get("rel"))):
             return ("vjp", "operand %d: grad %s, g.J = %s" % (i, np.array2string(np.asarray(got), precision=8), np.array2string(exp, precision=8)))
     return None
 
